@@ -232,6 +232,143 @@ SLIM = {"reset": ("run", "ns", "nc"), "get": ("ret",), "fill": ("slot", "stamp")
         "consume": ("stamps",), "post": ("stamps",), "reap": ("ret",), "read": ("val",)}
 
 
+class Stream:
+    """All runs of the real code of one check run, streamed to trace files for the TLC judge (B2).
+    Only a small record per run is kept in memory; the events of a rejected run are regenerated by
+    re-running its plan (the harness is deterministic)."""
+
+    def __init__(self, chk, tag, batch=150000):
+        self.chk, self.tag, self.batch = chk, tag, batch
+        self.parts = []         # (path, lines, [(first line, run index)])
+        self.meta = []          # per run: dict(group, source, build, plan_ref | random_ref, reset)
+        self._f = None
+        self._lines = 0
+        self._starts = None
+
+    def _rotate(self):
+        if self._f:
+            self._f.close()
+            self.parts[-1] = (self.parts[-1][0], self._lines, self._starts)
+        path = os.path.join(self.chk.work, "trace_%s_%d.ndjson" % (self.tag, len(self.parts)))
+        self._f = open(path, "w")
+        self._lines = 0
+        self._starts = []
+        self.parts.append((path, 0, self._starts))
+
+    def add(self, reset, evs, **meta):
+        if self._f is None or self._lines >= self.batch:
+            self._rotate()
+        k = len(self.meta)
+        self.meta.append(dict(meta, reset={x: reset.get(x) for x in ("ns", "nc", "flags", "h", "sq0", "cq0", "build")}))
+        w = self._f.write
+        w(json.dumps({"ev": "reset", "run": k, "ns": reset["ns"], "nc": reset["nc"]}, separators=(",", ":")) + "\n")
+        self._lines += 1
+        self._starts.append((self._lines, k))
+        for ev in evs:
+            if ev["ev"] == "skip":
+                continue
+            w(json.dumps({"ev": ev["ev"], **{x: ev[x] for x in SLIM[ev["ev"]]}}, separators=(",", ":")) + "\n")
+            self._lines += 1
+        return k
+
+    def judge(self, parallel=4):
+        """-> list of (run index, index among the run's non-skip events or -1, clause)"""
+        import bisect
+        import concurrent.futures as cf
+        if self._f:
+            self._f.close()
+            self._f = None
+            self.parts[-1] = (self.parts[-1][0], self._lines, self._starts)
+
+        def one(part):
+            path, lines, starts = part
+            res = core.run_tlc("RingTrace.tla", "RingTrace.cfg", workers=1, env={"TRACE": path}, timeout=3000, xmx="6g", xss="512m",
+                               metadir=os.path.join(core.WORK, "tlc-meta", "c17-%d-%s" % (os.getpid(), os.path.basename(path))))
+            core.tlc_must_pass(res, "RingTrace " + self.tag)
+            j = res.printed("RINGJUDGE")
+            bl = res.printed("RINGBAD")
+            if len(j) != 1 or j[0]["n"] != lines or j[0]["nbad"] != len(bl):
+                raise core.ToolError("RingTrace did not report on all %d events: %s" % (lines, res.out[-1500:]))
+            os.unlink(path)
+            firsts = [x[0] for x in starts]
+            out = []
+            for b in bl:
+                i = bisect.bisect_right(firsts, b["line"]) - 1
+                out.append((starts[i][1], b["line"] - starts[i][0] - 1, b["why"]))
+            return res, out
+
+        bad = []
+        with cf.ThreadPoolExecutor(max_workers=parallel) as pool:
+            for res, bl in pool.map(one, self.parts):
+                self.chk.add_tlc(res)
+                bad += bl
+        return bad
+
+    def events_of(self, k, bindirs):
+        """re-run run k -> (plan or None, random ref or None, events without skips)"""
+        m = self.meta[k]
+        bindir = bindirs[m["reset"]["build"]]
+        plan = None
+        if m.get("plan_ref"):
+            path, idx = m["plan_ref"]
+            with open(path) as f:
+                for i, line in enumerate(f):
+                    if i == idx:
+                        plan = json.loads(line)
+                        break
+            ppath = os.path.join(self.chk.work, "rerun_plan.ndjson")
+            core.write_ndjson(ppath, [plan])
+            runs = run_harness(bindir, ["plan", ppath])
+            evs = runs[0][1]
+        else:
+            r = m["random_ref"]
+            evs = run_harness(bindir, ["random"] + r["args"])[r["run"]][1]
+        return plan, m.get("random_ref"), [e for e in evs if e["ev"] != "skip"]
+
+
+def report_stream(chk, stream, bad, bindirs, detail_cap=12):
+    """turn judged rejections into violations; returns set of rejected run indices.
+    Events are regenerated for the first `detail_cap` rejections of each (clause, build)."""
+    rejected = set()
+    seen = {}
+    for (r, e, why) in sorted(bad):
+        rejected.add(r)
+        m = stream.meta[r]
+        reset = m["reset"]
+        key = (why, reset["build"])
+        seen[key] = seen.get(key, 0) + 1
+        h = reset["h"]
+        pos0 = lambda x: ("2^32-%d" % (h - x)) if x < h else str(x - h)
+        if seen[key] <= detail_cap:
+            plan, rnd, evs = stream.events_of(r, bindirs)
+            ev = evs[e] if 0 <= e < len(evs) else {"ev": "?"}
+            shape = shape_of(evs, e) if why == "content_overwritten_between_return_and_read" else None
+            pos = ev.get("st")
+            wrapped = pos is not None and any(x >= h for x in pos) and any(0 <= x < h for x in [reset["sq0"], reset["cq0"]])
+            replay = {"source": m["source"], "plan": plan, "random": rnd, "reset": reset, "events": evs[max(0, e - 40):e + 1], "clause": why}
+            m["_sig"] = (ev["ev"], shape)
+        else:
+            # same clause and build as rejections already documented in full: classify from the trace position only
+            evk, shape = ("read", "reap,post,read") if why == "content_overwritten_between_return_and_read" else (None, None)
+            if evk is None:
+                plan, rnd, evs = stream.events_of(r, bindirs)
+                ev = evs[e] if 0 <= e < len(evs) else {"ev": "?"}
+                evk = ev["ev"]
+                replay = {"source": m["source"], "plan": plan, "random": rnd, "reset": reset, "events": evs[max(0, e - 40):e + 1], "clause": why}
+            else:
+                ev = {"ev": evk}
+                replay = {"source": m["source"], "plan_ref": m.get("plan_ref"), "random": m.get("random_ref"), "reset": reset, "clause": why}
+            wrapped = False
+        sig = {"clause": why, "op": ev["ev"], "build": reset["build"]}
+        if why == "content_overwritten_between_return_and_read":
+            sig["shape"] = shape
+        what = "%s: %s (ring sizes %d/%d, flags %d, %s build, counters start at sq=%s cq=%s, step %d%s; %s)" % (
+            ev["ev"], why, reset["ns"], reset["nc"], reset.get("flags") or 0, reset["build"], pos0(reset["sq0"]), pos0(reset["cq0"]), e,
+            ", after the u32 wrap" if wrapped else "", m["source"])
+        chk.violate(sig, what, replay)
+    return rejected
+
+
 def judge(chk, runs, tag, batch=150000, parallel=1):
     """B2: runs -> list of (run index in `runs`, event index within run or -1, clause).
     One TLC call per batch of about `batch` events, `parallel` calls at a time."""
